@@ -33,7 +33,7 @@ def cvc5_check(solver, timeout_s=10, strings=False):
         os.unlink(path)
 
 
-def discharge(obs, axioms, timeout_ms=10000, shard=None, use_cvc5=True, cover=False):
+def discharge(obs, axioms, timeout_ms=10000, shard=None, use_cvc5=True, cover=False, retries=1):
     """obs: list of (name, hyps, goal, detail).  Returns {name: {'paths', 'proved', 'status', 'backend', 'secs', 'detail'}}"""
     agg = {}
     for i, (name, hyps, goal, detail) in enumerate(obs):
@@ -55,7 +55,7 @@ def discharge(obs, axioms, timeout_ms=10000, shard=None, use_cvc5=True, cover=Fa
             continue
         r, be, dt, info, solver = check_one(hyps, goal, axioms, timeout_ms, want_model=True)
         a['secs'] += dt
-        for attempt in (1, 2):
+        for attempt in range(1, retries + 1):
             # `unknown` is usually a heuristic miss, not a property of the formula: retry with another seed and a larger budget
             if r != 'unknown': break
             r, be, dt, info, solver = check_one(hyps, goal, axioms, timeout_ms * (2 if attempt == 1 else 4), want_model=True, seed=attempt * 7919)
